@@ -63,7 +63,7 @@ TEvent == /\ E.e \in (Callbacks \cup {"Result"}) /\ Step /\ UNCHANGED cur
                      /\ live' = (ok /\ E.e # "Result")
                      /\ ok \/ Bad(IF ProtoEnabled(st, ev) THEN "suffix-beyond-stated-length" ELSE Why(E))
 TCrash == /\ E.e \in {"Crash", "Hang", "Throw"} /\ Step /\ UNCHANGED <<cur, st, k>> /\ live' = FALSE
-          /\ Bad(IF E.e = "Crash" THEN "crash-" \o E.cls ELSE IF E.e = "Throw" THEN "throw-" \o E.kind ELSE "hang")
+          /\ Bad(IF E.e = "Crash" THEN "crash-" \o (IF "cls" \in DOMAIN E THEN E.cls ELSE "harness") ELSE IF E.e = "Throw" THEN "throw-" \o (IF "kind" \in DOMAIN E THEN E.kind ELSE "unknown") ELSE "hang")
 TOther == /\ E.e \notin (Callbacks \cup {"Result", "Case", "Crash", "Hang", "Throw"})
           /\ Step /\ UNCHANGED <<cur, st, k>>
           /\ live' = (IF E.e = "End" THEN FALSE ELSE live)
